@@ -1,27 +1,28 @@
 """Structural signatures of recorded C03 findings."""
 
 
-def overlapping_same_thread_target(case):
-    """True when an evaluation starts while another evaluation (of another iterator) is still in progress"""
+def steps_overlap(case):
+    """
+    True when a step (next/drain) of one iterator happens while an evaluation of another iterator is in progress, i.e.
+    has taken its first step and has neither been exhausted nor abandoned. evaluate() is lazy: merely creating an
+    iterator does not start the evaluation.
+    """
     name, kind, progs, sched = case
     pos = [0] * len(progs)
-    active = [False] * len(progs)
+    running = [False] * len(progs)
     for t in sched:
         a = progs[t][pos[t]][0]
         pos[t] += 1
         if a == "start":
-            if any(active[u] for u in range(len(progs)) if u != t):
+            running[t] = False
+        elif a in ("next", "drain"):
+            if any(running[u] for u in range(len(progs)) if u != t):
                 return True
-            active[t] = True
-        elif a in ("drain", "close", "drop"):
-            active[t] = False
-        elif a == "next":
-            # an evaluation whose next() already raised StopIteration is over; approximate by program end
-            if pos[t] == len(progs[t]) or progs[t][pos[t]][0] == "start":
-                active[t] = False
-            # another iterator stepping while this one is active
-        if a in ("next", "drain") and any(active[u] for u in range(len(progs)) if u != t):
-            return True
+            last_of_evaluation = pos[t] == len(progs[t]) or progs[t][pos[t]][0] == "start"
+            # a trailing next is the one that raises StopIteration; drain always finishes the evaluation
+            running[t] = not (a == "drain" or (last_of_evaluation and a == "next"))
+        elif a in ("close", "drop"):
+            running[t] = False
     return False
 
 
@@ -30,6 +31,6 @@ def classify(case, failure):
         return None
     name = case[0]
     if name == "S8_rule_query_twice" and failure.kind in ("incomplete-evaluation", "wrong-prefix", "wrong-results") \
-            and overlapping_same_thread_target(case):
+            and steps_overlap(case):
         return "C03/overlapping-evaluations-of-one-rule-query"
     return None
